@@ -20,8 +20,15 @@ case "${PKG%_test}" in
 esac
 cp "$OUT"/demo/*.go "$DDIR"/
 FLAGS="-vet=off -count=1"; [ -n "$RACE" ] && FLAGS="$FLAGS -race"
+if [ "$PKG" = "main" ] && ! ls "$OUT"/demo/*_test.go >/dev/null 2>&1; then
+  # the demonstration is a program: non-zero exit = violation shown
+  timeout 900 go run ${RACE:+-race} ./$DDIR/ >/tmp/ev/$ID.with.log 2>&1; WITH=$?
+  git checkout -q -- .
+  timeout 900 go run ${RACE:+-race} ./$DDIR/ >/tmp/ev/$ID.without.log 2>&1; WITHOUT=$?
+else
 timeout 600 go test $FLAGS ./$DDIR/ >/tmp/ev/$ID.with.log 2>&1; WITH=$?
 git checkout -q -- . 
 timeout 600 go test $FLAGS ./$DDIR/ >/tmp/ev/$ID.without.log 2>&1; WITHOUT=$?
+fi
 if [ $WITH -ne 0 ] && [ $WITHOUT -eq 0 ]; then echo "$ID: CONFIRMED (demo fails with change rc=$WITH, passes without)"; exit 0; fi
 echo "$ID: NOT-CONFIRMED (with rc=$WITH, without rc=$WITHOUT)"; exit 1
